@@ -88,8 +88,38 @@ impl CacheCallback for Cb {
     }
 }
 
-pub type SCache = Cache<u64, u64, TableKB, Co, Va, Cb>;
-pub type ACache = AsyncCache<u64, u64, TableKB, Co, Va, Cb>;
+pub type SCache = Cache<u64, u64, TableKB, Co, Va, Cb, SeedBH>;
+pub type ACache = AsyncCache<u64, u64, TableKB, Co, Va, Cb, SeedBH>;
+
+/// A seeded, deterministic BuildHasher for the cache's internal hash maps: with it the iteration
+/// order of the policy's charge map (the eviction sample) and of the expiry buckets is a function of
+/// the seed and of the history, so replays repeat exactly and the two flavours can be compared
+/// victim by victim; the seed varies from case to case.
+#[derive(Clone, Copy, Debug, Default)]
+pub struct SeedBH(pub u64);
+pub struct SeedH(u64);
+impl std::hash::BuildHasher for SeedBH {
+    type Hasher = SeedH;
+    fn build_hasher(&self) -> SeedH {
+        SeedH(self.0 ^ 0x9E37_79B9_7F4A_7C15)
+    }
+}
+impl std::hash::Hasher for SeedH {
+    fn finish(&self) -> u64 {
+        let mut z = self.0;
+        z = (z ^ (z >> 30)).wrapping_mul(0xBF58_476D_1CE4_E5B9);
+        z = (z ^ (z >> 27)).wrapping_mul(0x94D0_49BB_1331_11EB);
+        z ^ (z >> 31)
+    }
+    fn write(&mut self, bytes: &[u8]) {
+        for b in bytes {
+            self.0 = (self.0.rotate_left(5) ^ (*b as u64)).wrapping_mul(0x0000_0100_0000_01B3);
+        }
+    }
+    fn write_u64(&mut self, x: u64) {
+        self.0 = (self.0.rotate_left(23) ^ x).wrapping_mul(0x9E37_79B9_7F4A_7C15).wrapping_add(0x632B_E59B_D9B4_E019);
+    }
+}
 
 pub enum CK {
     S(SCache),
@@ -313,6 +343,9 @@ pub struct Case {
     last_snap: CacheSnap<u64>,
     proc_prev_at: &'static str,
     tick_since_quiescent: bool,
+    /// C19: results, callbacks (as a sorted multiset per quiescent interval) and quiescent snapshots
+    pub pair_log: Arc<std::sync::Mutex<Vec<String>>>,
+    pair_cbs: Vec<String>,
 }
 
 const LONG: Duration = Duration::from_secs(30);
@@ -350,6 +383,7 @@ impl Case {
                 .set_metrics(cfg.metrics)
                 .set_ignore_internal_cost(cfg.ignore_internal)
                 .set_cleanup_duration(Duration::from_secs(3600))
+                .set_hasher(SeedBH(cfg.seeds[0]))
                 .finalize(spawner)
                 .map_err(|e| format!("{:?}", e))?;
             verif::set_seeds_async(&c, cfg.seeds);
@@ -367,6 +401,7 @@ impl Case {
                 .set_metrics(cfg.metrics)
                 .set_ignore_internal_cost(cfg.ignore_internal)
                 .set_cleanup_duration(Duration::from_secs(3600))
+                .set_hasher(SeedBH(cfg.seeds[0]))
                 .finalize()
                 .map_err(|e| format!("{:?}", e))?;
             verif::set_seeds(&c, cfg.seeds);
@@ -398,6 +433,8 @@ impl Case {
             last_snap: first,
             proc_prev_at: "proc:loop",
             tick_since_quiescent: false,
+            pair_log: Arc::new(std::sync::Mutex::new(Vec::new())),
+            pair_cbs: Vec::new(),
             cfg,
             sched,
             ck,
@@ -437,6 +474,11 @@ impl Case {
         let after = snapshot(&self.ck);
         let after_s = str_snap(&after);
         t.snap(&after_s);
+        // ---- C19: what a client of either flavour can observe
+        self.pair_cbs.extend(cbv.iter().cloned());
+        if at == "finish" && (line.starts_with("op ") || line.starts_with("cl ")) {
+            self.pair_log.lock().unwrap().push(format!("R {}", res));
+        }
         // ---- monitors on the implementation's own observations
         let now = verif::clock::now_ns();
         let before = std::mem::replace(&mut self.last_snap, after.clone());
@@ -461,6 +503,12 @@ impl Case {
         if self.is_quiescent(&after) {
             let tick_done = std::mem::replace(&mut self.tick_since_quiescent, false);
             self.mon.quiescent(&after, now, tick_done);
+            let mut cbs = std::mem::take(&mut self.pair_cbs);
+            cbs.sort();
+            let mut pl = self.pair_log.lock().unwrap();
+            pl.push(format!("C {}", cbs.join(",")));
+            pl.push(format!("Q {}", after_s));
+            drop(pl);
             // C17: ratio() is hits / (hits + misses) (0 when there were no lookups)
             let ratio = match &*self.ck { CK::S(c) => c.metrics.ratio(), CK::A(c) => c.metrics.ratio() };
             self.mon.ratio(&after, ratio);
